@@ -53,7 +53,7 @@ class DictValue(GenericValue):
                 [
                     f"{self._file._value_to_code(k)}: {v._new_code()}"
                     for k, v in self._new_value.items()
-                    if not isinstance(v, UndecidedValue)
+                    if v._new_value is not undefined
                 ]
             )
             + "}"
@@ -79,9 +79,12 @@ class DictValue(GenericValue):
 
         to_insert = []
         for key, new_value_element in self._new_value.items():
-            if key not in self._old_value and not isinstance(
-                new_value_element, UndecidedValue
+            if (
+                key not in self._old_value
+                and new_value_element._new_value is not undefined
             ):
+                # values which are undefined have never been compared
+                # or could not be recorded (UsageError in clone)
                 # add new values
                 to_insert.append((key, new_value_element._new_code()))
 
